@@ -454,6 +454,70 @@ fn g_tree() -> BS<M> {
 
 // ------------------------------------------------------------------ crate generation
 
+const HYGIENE_EXCLUDED: &[&str] = &[
+    "as", "break", "const", "continue", "crate", "else", "enum", "extern", "false", "fn", "for", "if", "impl", "in", "let", "loop", "match", "mod", "move", "mut", "pub", "ref",
+    "return", "self", "static", "struct", "super", "trait", "true", "type", "unsafe", "use", "where", "while", "async", "await", "dyn", "abstract", "become", "box", "do", "final",
+    "macro", "override", "priv", "typeof", "unsized", "virtual", "yield", "try", "gen", "_", "union", "var_int", "var_str", "var_val", "ctr", "tick", "check", "main", "u8", "u16",
+    "u32", "u64", "i8", "i16", "i32", "i64", "f32", "f64", "usize", "isize", "bool", "char", "str", "std", "lexpr", "sexp", "via",
+];
+
+/// Every lower-case identifier that occurs in the source of the macro crate
+/// under test (read from the path the generated crate depends on): names a
+/// careless expansion could bind or shadow at the call site.
+fn macro_crate_identifiers() -> Vec<String> {
+    let manifest = std::fs::read_to_string(c09_dir().join("Cargo.toml")).unwrap_or_default();
+    let lexpr_path = manifest.split("path = \"").nth(1).and_then(|r| r.split('"').next()).unwrap_or("/repo/lexpr").to_string();
+    let dir = PathBuf::from(lexpr_path).parent().map(|p| p.join("lexpr-macros").join("src")).unwrap_or_else(|| PathBuf::from("/repo/lexpr-macros/src"));
+    let mut names = std::collections::BTreeSet::new();
+    if let Ok(rd) = std::fs::read_dir(&dir) {
+        let mut files: Vec<PathBuf> = rd.filter_map(|e| e.ok().map(|e| e.path())).filter(|p| p.extension().map_or(false, |x| x == "rs")).collect();
+        files.sort();
+        for f in files {
+            let text = std::fs::read_to_string(&f).unwrap_or_default();
+            let mut cur = String::new();
+            for c in text.chars().chain(std::iter::once(' ')) {
+                if c.is_ascii_alphanumeric() || c == '_' {
+                    cur.push(c);
+                } else {
+                    let lower = cur.chars().all(|c| c.is_ascii_lowercase() || c.is_ascii_digit() || c == '_') && cur.chars().next().map_or(false, |c| c.is_ascii_lowercase() || c == '_');
+                    if lower && !HYGIENE_EXCLUDED.contains(&cur.as_str()) && !RUST_KEYWORDS.contains(&cur.as_str()) && cur.len() <= 24 {
+                        names.insert(cur.clone());
+                    }
+                    cur.clear();
+                }
+            }
+        }
+    }
+    names.into_iter().collect()
+}
+
+/// Call-site variables (bound to 7u32) that the unquoted expressions of `m` mention.
+fn hygiene_vars(m: &M, names: &[String], out: &mut Vec<String>) {
+    match m {
+        M::Unquote(src, _, _) => {
+            let mut cur = String::new();
+            for c in src.chars().chain(std::iter::once(' ')) {
+                if c.is_ascii_alphanumeric() || c == '_' {
+                    cur.push(c);
+                } else {
+                    if names.iter().any(|n| *n == cur) && !out.contains(&cur) {
+                        out.push(cur.clone());
+                    }
+                    cur.clear();
+                }
+            }
+        }
+        M::List(xs, t) => {
+            xs.iter().for_each(|x| hygiene_vars(x, names, out));
+            if let Some(t) = t {
+                hygiene_vars(t, names, out);
+            }
+        }
+        M::Vector(xs) => xs.iter().for_each(|x| hygiene_vars(x, names, out)),
+        _ => {}
+    }
+}
+
 fn c09_dir() -> PathBuf {
     std::env::var_os("VERIF_DIR").map(PathBuf::from).unwrap_or_else(|| PathBuf::from("/verif")).join("c09")
 }
@@ -505,8 +569,12 @@ fn write_crate(cases: &[(usize, &M)]) -> Vec<usize> {
     let mut src = String::from(HEADER);
     let header_lines = src.lines().count();
     let mut line_to_case = Vec::new();
+    let names = macro_crate_identifiers();
     for (id, m) in cases {
         let model = m.model();
+        let mut hv = Vec::new();
+        hygiene_vars(m, &names, &mut hv);
+        let lets: String = hv.iter().map(|n| format!("#[allow(unused_variables, non_snake_case)] let {} = 7u32; ", n)).collect();
         let text = if m.has_unquote() {
             "None".to_string()
         } else {
@@ -521,7 +589,7 @@ fn write_crate(cases: &[(usize, &M)]) -> Vec<usize> {
         } else {
             format!("sexp!({})", m.macro_src())
         };
-        src.push_str(&format!("    {{ let var_val = var_val.clone(); let ctr = std::cell::Cell::new(0u64); let _ = &ctr; check({}, {}, {}, {}); }}\n", id, invocation, text, rust_expr(&model)));
+        src.push_str(&format!("    {{ let var_val = var_val.clone(); let ctr = std::cell::Cell::new(0u64); let _ = &ctr; {}check({}, {}, {}, {}); }}\n", lets, id, invocation, text, rust_expr(&model)));
         line_to_case.push(*id);
     }
     src.push_str("}\n");
@@ -772,6 +840,24 @@ fn run(ctx: &mut Ctx) {
             &mut 0,
         ),
     ];
+    // hygiene: call-site variables named like the identifiers of the macro
+    // crate itself, unquoted as element, nested element, vector element and
+    // dotted tail - the expansion must not bind or shadow any of them
+    let mut battery = battery;
+    let hyg = macro_crate_identifiers();
+    ctx.add_sample("hygiene", json!({"identifiers_of_the_macro_crate": hyg.len(), "some": hyg.iter().step_by(9).take(16).collect::<Vec<_>>()}));
+    for n in &hyg {
+        let u = |src: String, v: u64, paren: bool| M::Unquote(src, MV::U(v), paren);
+        battery.push(M::List(
+            vec![
+                id("h"),
+                u(n.clone(), 7, false),
+                M::List(vec![u(format!("{} + 1", n), 8, true)], Some(Box::new(u(n.clone(), 7, false)))),
+                M::Vector(vec![u(n.clone(), 7, false), u(format!("{} * 2", n), 14, true)]),
+            ],
+            Some(Box::new(u(format!("{} - 1", n), 6, true))),
+        ));
+    }
     let mut excluded = 0u64;
     let mut all_failures = 0usize;
     for b in 0..batches {
